@@ -116,34 +116,47 @@ type tobs struct {
 	Call, EntryClock, ExitClock, Ret int64 `json:"-"`
 }
 
-var modes = []string{"200", "301", "400", "404", "500", "503", "err", "err404", "err503"}
+// Handler modes: "<status>" answers with that status; "err" returns a plain error (the app's
+// error handler answers 500), "err<code>" returns a *fiber.Error with that code;
+// "<status>>err..." first SETS a status on the response (c.Status) and then returns the error —
+// the client still receives what the error handler makes of the error.
+var modes = []string{"200", "301", "400", "404", "500", "503", "err", "err404", "err503",
+	"201>err", "204>err", "302>err", "304>err", "400>err", "404>err", "201>err404", "302>err503", "204>err503", "404>err302"}
 
-// finalStatus is the status code the client receives; returnStatus is what the response holds
+// modeStatus: final is the status code the client receives; atReturn is what the response holds
 // at the moment the handler returns to the middleware (an error is turned into a status by the
 // app's ErrorHandler only after the whole chain has returned).
 func modeStatus(mode string) (final, atReturn int) {
-	switch mode {
-	case "err":
-		return 500, 200
-	case "err404":
-		return 404, 200
-	case "err503":
-		return 503, 200
+	atReturn = 200
+	if i := strings.IndexByte(mode, '>'); i >= 0 {
+		atReturn, _ = strconv.Atoi(mode[:i])
+		mode = mode[i+1:]
+	}
+	switch {
+	case mode == "err":
+		return 500, atReturn
+	case strings.HasPrefix(mode, "err"):
+		n, _ := strconv.Atoi(mode[3:])
+		return n, atReturn
 	}
 	n, _ := strconv.Atoi(mode)
 	return n, n
 }
 
 func handle(c fiber.Ctx, mode string) error {
-	switch mode {
-	case "200":
+	if i := strings.IndexByte(mode, '>'); i >= 0 {
+		n, _ := strconv.Atoi(mode[:i])
+		c.Status(n)
+		mode = mode[i+1:]
+	}
+	switch {
+	case mode == "200":
 		return c.SendString("ok")
-	case "err":
+	case mode == "err":
 		return errors.New("boom")
-	case "err404":
-		return fiber.NewError(fiber.StatusNotFound, "nope")
-	case "err503":
-		return fiber.ErrServiceUnavailable
+	case strings.HasPrefix(mode, "err"):
+		n, _ := strconv.Atoi(mode[3:])
+		return fiber.NewError(n, "nope")
 	}
 	n, _ := strconv.Atoi(mode)
 	return c.Status(n).SendString(mode)
